@@ -91,4 +91,16 @@ SYMS += [
 for planar in (False, True):
     for anchor, tag in REC:
         SYMS.append(recreate(anchor, "recreate_%s_%s" % (tag, "planar" if planar else "interleaved"), planar, "alloc" in tag))
+# ---- copy construction / copy assignment: which dimensions and alignment the copy gets, and whether assignment keeps the storage
+PD = "std::ptrdiff_t"
+SYMS += [
+    Sym(IMG, r"image& operator=\(const image& img\)", "assign_branch", [("w", PD), ("h", PD), ("iw", PD), ("ih", PD), ("branch", "int")], outputs=["branch"],
+        subst=[(r"dimensions\(\) == img\.dimensions\(\)", "(w == iw && h == ih)"), (r"copy_pixels\(img\._view,_view\);", "branch = 0;"),
+               (r"image tmp\(img\);\s*swap\(tmp\);", "branch = 1;"), (r"return \*this;", "")],
+        doc="image::operator=(const image&): 0 = copy_pixels into the existing storage, 1 = copy-construct a temporary and swap"),
+    Sym(IMG, r"image\(const image& img\) : _memory\(nullptr\), _align_in_bytes\((.*?)\), _alloc\(img\._alloc\)", "copy_ctor_align", [("img_align", SZ)], ret=SZ, expr=True,
+        subst=[(r"img\._align_in_bytes", "img_align")], doc="copy constructor: the alignment the copy is laid out with"),
+    Sym(IMG, r"image\(const image& img\) : _memory\(nullptr\)[^{]*", "copy_ctor_dims", [("iw", PD), ("ih", PD), ("dw", PD), ("dh", PD)], outputs=["dw", "dh"],
+        subst=[(r"allocate_and_copy\(img\.dimensions\(\),img\._view\);", "dw = iw; dh = ih;")], doc="copy constructor: dimensions handed to allocate_and_copy"),
+]
 NAMESPACE = "GilVerif.Gen.C01"
